@@ -56,6 +56,10 @@ class Gen:
         spawn_at = sorted(rng.sample(range(len(bodies[0]) + 1), 1) * (nth - 1)) if rng.random() < 0.3 else [0] * (nth - 1)
         ops = list(bodies[0])
         out = []
+        # every thread gets its own handle of every Arc before anything else happens
+        for kk in byk.get("K", []):
+            for t in range(1, nth):
+                out.append(f"ac {kk} 0 {t + 2}")
         idx = 0
         for t in range(1, nth):
             while idx < spawn_at[t - 1] and ops:
@@ -166,19 +170,22 @@ class Gen:
                 u = rng.choice(byk["U"])
                 ops.append(f"cr {u}" if rng.random() < 0.5 else f"cw {u}")
             elif k == "K":
+                # handle slots are owned by one thread each (a handle used by two threads at once is a
+                # use-after-free in the harness, not a loom program): main owns 0 and 1, thread t owns
+                # t+2 and t+5; main hands slot t+2 to thread t before spawning it (see make)
                 kk = rng.choice(byk["K"])
+                own = [0, 1] if t == 0 else [t + 2, t + 5]
                 x = rng.random()
-                i = rng.randint(0, 2)
                 if x < 0.3:
-                    ops.append(f"ac {kk} {rng.randint(0, 1)} {t + 2}")
+                    ops.append(f"ac {kk} {own[0]} {own[1]}")
                 elif x < 0.6:
-                    ops.append(f"ad {kk} {rng.choice([0, 1, t + 2])}")
+                    ops.append(f"ad {kk} {rng.choice(own)}")
                 elif x < 0.75:
-                    ops.append(f"an {kk} {rng.choice([0, t + 2])}")
+                    ops.append(f"an {kk} {rng.choice(own)}")
                 elif x < 0.9:
-                    ops.append(f"ag {kk} {rng.choice([0, t + 2])}")
+                    ops.append(f"ag {kk} {rng.choice(own)}")
                 else:
-                    ops.append(f"au {kk} {rng.choice([0, t + 2])}")
+                    ops.append(f"au {kk} {rng.choice(own)}")
             elif k == "T":
                 ops.append(f"td {rng.choice(byk['T'])}")
             elif k == "P":
@@ -429,6 +436,11 @@ def fam_arc_core(tier="quick"):
     L += exhaustive("arA", ["K"], [a0, a1], 2, main_pre=["ac 0 0 2"], main_post=["ad 0 0", "ad 0 2"], stride=1 if big else 2)
     a2 = ["an 0 4", "ad 0 4"]
     L += exhaustive("arB", ["K"], [a0[:2], a1[2:], a2], 1, main_pre=["ac 0 0 2", "ac 0 0 4"], main_post=["ad 0 0", "ad 0 2", "ad 0 4"])
+    # four handles dropped by four threads with nothing else ordering them: every one of them can be the
+    # last (the result of a drop says whether it destroyed the value)
+    L.append(prog_line("arD0", ["K"], [["ac 0 0 1", "ac 0 0 2", "ac 0 0 3", "sp 1", "sp 2", "sp 3", "ad 0 0"], ["ad 0 1"], ["ad 0 2"], ["ad 0 3"]]))
+    L.append(prog_line("arD1", ["K"], [["ac 0 0 1", "ac 0 0 2", "ac 0 0 3", "ac 0 0 4", "sp 1", "sp 2", "ad 0 0", "ad 0 4"], ["ad 0 1", "ad 0 3"], ["ad 0 2"]]))
+    L.append(prog_line("arD2", ["K"], [["ac 0 0 1", "ac 0 0 2", "ac 0 0 3", "sp 1", "sp 2", "sp 3", "an 0 0", "ad 0 0"], ["ad 0 1"], ["ad 0 2"], ["ad 0 3"]]))
     return L
 
 
